@@ -27,10 +27,13 @@ enum Op {
     EditPush,     // current_mut().push(new individual)
     EditTruncate, // get_current_mut() -> truncate(1)
     EditObjective, // set objective of first individual of top via current_mut
+    /// current_mut().clone_from(&other population): overwrites the individuals that are there (evaluated and not)
+    /// in place; afterwards the top population is an exact copy of the source
+    EditCloneFrom,
 }
 
 fn alphabet(max_rot: u8) -> Vec<Op> {
-    let mut v = vec![Op::Push(0), Op::Push(1), Op::Push(2), Op::Pop, Op::TryPop, Op::EditPush, Op::EditTruncate, Op::EditObjective];
+    let mut v = vec![Op::Push(0), Op::Push(1), Op::Push(2), Op::Pop, Op::TryPop, Op::EditPush, Op::EditTruncate, Op::EditObjective, Op::EditCloneFrom];
     for n in 0..=max_rot {
         v.push(Op::Rotate(n));
     }
@@ -95,6 +98,14 @@ fn sweep(r: &Run) -> Option<String> {
             }
         }
     }
+    // absurd depths are "too shallow" like any other
+    for d in [usize::MAX, usize::MAX - 1, m.len() + 1_000_000] {
+        match catch(|| real.try_peek(d).map(view)) {
+            Ok(None) => {}
+            Ok(Some(g)) => return Some(format!("try_peek({d}) = {g:?} on a stack of height {}", m.len())),
+            Err(p) => return Some(format!("try_peek({d}) panicked: {p}")),
+        }
+    }
     let want = m.last().cloned();
     match catch(|| real.get_current().map(view)) {
         Ok(g) if g == want => {}
@@ -152,7 +163,15 @@ fn step(r: &mut Run, op: Op) -> Result<bool, (String, String)> {
         Op::Rotate(n) => {
             let n = n as usize;
             if n > height {
-                return Ok(false); // documented panic region: not exercised here
+                // documented panic region: whatever happens, a refused rotation must not have changed the stack
+                let before = r.model.clone();
+                let res = catch(|| r.real.rotate(n));
+                let now = resync(&r.real);
+                r.model = now.clone();
+                if res.is_err() && now != before {
+                    return Err(("rotate:refused-but-the-stack-changed".into(), format!("rotate({n}) at height {height} panicked and left {now:?} (before: {before:?})")));
+                }
+                return Ok(false);
             }
             let before = r.model.clone();
             if let Err(p) = catch(|| r.real.rotate(n)) {
@@ -207,6 +226,25 @@ fn step(r: &mut Run, op: Op) -> Result<bool, (String, String)> {
                 }
                 Ok(some) => Err(("get_current_mut:wrong-presence".into(), format!("get_current_mut().is_some() = {some} at height {height}"))),
                 Err(p) => Err((format!("get_current_mut:panic:{}", if height == 0 { "empty" } else { "nonempty" }), format!("get_current_mut() panicked: {p}"))),
+            }
+        }
+        Op::EditCloneFrom => {
+            if height == 0 {
+                return Ok(false);
+            }
+            let src: Vec<Tag> = (0..2)
+                .map(|j| {
+                    r.next_tag += 1;
+                    (r.next_tag, if j == 0 { Some((r.next_tag as f64 + 0.25).to_bits()) } else { None })
+                })
+                .collect();
+            let src_inds: Vec<Individual<TagP>> = src.iter().map(|t| mk(*t)).collect();
+            match catch(|| r.real.current_mut().clone_from(&src_inds)) {
+                Ok(()) => {
+                    *r.model.last_mut().unwrap() = src;
+                    Ok(true)
+                }
+                Err(p) => Err(("current_mut:panic-nonempty".into(), format!("current_mut().clone_from(..) panicked: {p}"))),
             }
         }
         Op::EditObjective => {
@@ -283,7 +321,7 @@ fn op_class(op: Op) -> &'static str {
         Op::Pop => "pop",
         Op::TryPop => "try_pop",
         Op::Rotate(_) => "rotate",
-        Op::EditPush | Op::EditTruncate | Op::EditObjective => "edit",
+        Op::EditPush | Op::EditTruncate | Op::EditObjective | Op::EditCloneFrom => "edit",
     }
 }
 
@@ -310,7 +348,7 @@ fn exhaustive(rep: &Reporter, len: usize, max_rot: u8) {
                     for &op in &ops {
                         let applicable = match op {
                             Op::Push(_) => true,
-                            Op::Pop | Op::TryPop | Op::EditPush | Op::EditTruncate | Op::EditObjective => height > 0,
+                            Op::Pop | Op::TryPop | Op::EditPush | Op::EditTruncate | Op::EditObjective | Op::EditCloneFrom => height > 0,
                             Op::Rotate(n) => (n as usize) <= height && n >= 2,
                         };
                         if applicable {
@@ -589,7 +627,7 @@ fn components(rep: &Reporter) {
 
 fn main() {
     let rep = Reporter::from_args("C04");
-    rep.rule("histories over {push k-sized, pop, try_pop, rotate n, three in-place edits} on Populations<TagP> vs a Vec<Vec<tag>> model with a full-depth sweep after every op; exhaustive up to the stated length, plus seeded random histories, rotation laws for all n<=height<=7 (cyclic shift by one of exactly the top n, in the documented direction: the top population moves to the bottom of the window), and the five population utility components on prepared states; distinct_nontrivial counts distinct (stack height, applicable op) pairs in exhaustive histories, distinct random histories, and distinct component input classes");
+    rep.rule("histories over {push k-sized, pop, try_pop, rotate n (also n > height: a refused rotation leaves the stack as it was), four in-place edits incl. clone_from over evaluated individuals; try_peek also at absurd depths} on Populations<TagP> vs a Vec<Vec<tag>> model with a full-depth sweep after every op; exhaustive up to the stated length, plus seeded random histories, rotation laws for all n<=height<=7 (cyclic shift by one of exactly the top n, in the documented direction: the top population moves to the bottom of the window), and the five population utility components on prepared states; distinct_nontrivial counts distinct (stack height, applicable op) pairs in exhaustive histories, distinct random histories, and distinct component input classes");
     rep.assume("Individual<TagP> equality (tag, objective bits) identifies individuals");
     let (len, max_rot) = rep.tier.pick((6usize, 3u8), (7usize, 4u8));
     rep.set("exhaustive_history_length", json!(len));
